@@ -199,6 +199,12 @@ fn run(args: &Args) {
                         m.insert((r.profile, r.case), o);
                     }
                 }
+                Err(e) if e == "no-model" => {
+                    let mut m = model_out.lock().unwrap();
+                    for r in local.iter() {
+                        m.insert((r.profile, r.case), r.trace.outs.clone());
+                    }
+                }
                 Err(e) => {
                     *infra_err.lock().unwrap() = Some(e);
                 }
